@@ -223,6 +223,59 @@ def sIns (h : K → Nat) (s : HSet K) (x : K) : HSet K := assign h 0 s x 1
 def sAddAll (h : K → Nat) (s other : HSet K) : HSet K :=
   (enum other).foldl (fun b kv => sIns h b kv.1) s
 
+/-! ## `s << s` as coded: the enumeration of `s` runs while its body `(*this)[x] = 1` may `rehash()` the same table
+
+`Set::operator<<(const Set& s)` is `foreach(const T& x, s) (*this)[x] = 1;`.  With `&s == this` the `Enumerator`
+(`Array<KeyValN*>::Enumerator e` = a REFERENCE to the member `a`, an index `i` and the end `j` = the array length at
+construction; `KeyValN* p`) stays alive across `rehash()`: afterwards `*e` reads the NEW array at the old index, the end
+stays the OLD length, and `p->next` is the node's successor in the chain it was re-linked into.  A node pointer is
+modelled by the node's key (keys are unique, no node is freed by `operator[]`); `p->next` is looked up in the current
+table; `none` = a read outside the array, a null/dangling dereference, or fuel exhausted. -/
+
+/-- key of the head node of a chain (`none` = null pointer) -/
+def headKey (c : List (K × V)) : Option K := c.head?.map (·.1)
+
+/-- `p->next` for the node holding `key`, read in the current table (outer `none`: no such node) -/
+def nextOf (h : K → Nat) (m : HM K V) (key : K) : Option (Option K) :=
+  match (m.buckets.getD (binOf h m.buckets.length key) []).dropWhile (fun kv => kv.1 ≠ key) with
+  | [] => none
+  | _ :: t => some (headKey t)
+
+/-- `while(p == 0 && e) { ++e; if(e) p = *e; }` with `e` = (current array `B`, index `i`, fixed end `jEnd`) -/
+def settleK (B : List (List (K × V))) (jEnd : Nat) : Nat → Nat → Option K → Option (Nat × Option K)
+  | _, i, some k => some (i, some k)
+  | 0, _, none => none
+  | f + 1, i, none =>
+    if i < jEnd then
+      if i + 1 < jEnd then
+        match B[i + 1]? with
+        | none => none
+        | some c => settleK B jEnd f (i + 1) (headKey c)
+      else some (i + 1, none)
+    else some (i, none)
+
+/-- `for(; e; ++e) (*this)[~e] = 1;` on the table being enumerated -/
+def selfMergeLoop (h : K → Nat) (jEnd : Nat) : Nat → HSet K → Nat → Option K → Option (HSet K)
+  | 0, _, _, _ => none
+  | _ + 1, m, i, none => if i < jEnd then none else some m
+  | f + 1, m, i, some k =>
+    let m' := sIns h m k
+    match nextOf h m' k with
+    | none => none
+    | some nx =>
+      match settleK m'.buckets jEnd (jEnd + 1) i nx with
+      | none => none
+      | some (i', p') => selfMergeLoop h jEnd f m' i' p'
+
+/-- `s << s` -/
+def selfMerge (h : K → Nat) (m : HSet K) : Option (HSet K) :=
+  match m.buckets[0]? with
+  | none => none
+  | some c =>
+    match settleK m.buckets m.buckets.length (m.buckets.length + 1) 0 (headKey c) with
+    | none => none
+    | some (i, p) => selfMergeLoop h m.buckets.length (m.buckets.flatten.length + 1) m i p
+
 /-- `Set(const Array<T>&)` -/
 def sFromList (h : K → Nat) (xs : List K) : HSet K := xs.foldl (sIns h) (empty defaultBuckets)
 
